@@ -5,6 +5,7 @@
 //!   lace-verif replay <ID> <file>...            strict replay of saved cases
 //!   lace-verif list
 
+mod cli;
 mod dbgcheck;
 mod engine;
 mod gen;
@@ -12,7 +13,9 @@ mod lacebox;
 mod proggen;
 mod props;
 mod refasm;
+mod refcmd;
 mod refdbg;
+mod refedit;
 mod refvm;
 
 use std::collections::BTreeSet;
